@@ -1,7 +1,8 @@
 (* Model of the RESP connection loop (handle_connection in transport/redis/mod.rs): bytes arrive in
-   chunks, are appended to the connection buffer, the buffer cap is checked, then complete frames
-   are decoded and handled one by one (reply written after each); a protocol error, the buffer cap
-   or QUIT close the connection.  [isq] = "this value is a QUIT command" (depends on Unicode
+   chunks, are appended to the connection buffer, complete frames are decoded and handled one by one
+   (reply written after each; a frame longer than the buffer limit is refused), then the undecoded
+   remainder is checked against the buffer limit; a protocol error, the limit or QUIT close the
+   connection.  [isq] = "this value is a QUIT command" (depends on Unicode
    upper-casing: a parameter). *)
 From Coq Require Import ZArith NArith List Bool Lia.
 Import ListNotations.
@@ -11,7 +12,9 @@ Open Scope N_scope.
 Section Conn.
 Variable isq : value -> bool.
 
-Inductive cstatus := CNeedMore | CProtoError | CQuit | CPanic.
+Inductive cstatus := CNeedMore | CProtoError | CQuit | CPanic | CTooBig.
+
+Definition cap : nat := Z.to_nat MAX_BUFFER_SIZE.
 
 (* the inner `while let Some((value, consumed)) = parser.parse(&buffer)?` loop:
    decoded commands (in order), remaining buffer, parser depth, why the loop ended *)
@@ -21,6 +24,8 @@ Fixpoint drain (fuel : nat) (depth : nat) (buf : bytes) : list value * bytes * n
   | S f =>
       match parse_with depth buf with
       | (POk v c, depth') =>
+          if (cap <? c)%nat then ([], buf, depth', CTooBig)  (* consumed > MAX_BUFFER_SIZE: refused *)
+          else
           let buf' := skipn c buf in                       (* buffer.drain(..consumed) *)
           if isq v then ([v], buf', depth', CQuit)
           else let '(vs, b, d, s) := drain f depth' buf' in (v :: vs, b, d, s)
@@ -36,18 +41,20 @@ Inductive conn_end := Open | ClosedByError | ClosedByCap | ClosedByQuit.
 Record conn := { c_buf : bytes; c_depth : nat; c_end : conn_end }.
 Definition conn_init : conn := {| c_buf := []; c_depth := 0%nat; c_end := Open |}.
 
-Definition cap : nat := Z.to_nat MAX_BUFFER_SIZE.
-
 (* one socket read of [chunk] (non-empty): commands decoded by this read, new state *)
+Definition end_of (s : cstatus) (leftover : bytes) : conn_end :=
+  match s with
+  | CNeedMore => if (cap <? length leftover)%nat then ClosedByCap else Open     (* the check after the parse loop *)
+  | CQuit => ClosedByQuit
+  | CTooBig => ClosedByCap
+  | _ => ClosedByError
+  end.
+
 Definition conn_feed (cn : conn) (chunk : bytes) : list value * conn :=
   match c_end cn with
   | Open =>
-      let buf := c_buf cn ++ chunk in
-      if (cap <? length buf)%nat then ([], {| c_buf := buf; c_depth := c_depth cn; c_end := ClosedByCap |})
-      else
-        let '(vs, b, d, s) := drain_all (c_depth cn) buf in
-        (vs, {| c_buf := b; c_depth := d;
-                c_end := match s with CNeedMore => Open | CQuit => ClosedByQuit | _ => ClosedByError end |})
+      let '(vs, b, d, s) := drain_all (c_depth cn) (c_buf cn ++ chunk) in
+      (vs, {| c_buf := b; c_depth := d; c_end := end_of s b |})
   | _ => ([], cn)
   end.
 
@@ -57,7 +64,11 @@ Fixpoint conn_run (cn : conn) (chunks : list bytes) : list value * conn :=
   | ch :: r => let (v1, cn1) := conn_feed cn ch in let (v2, cn2) := conn_run cn1 r in (v1 ++ v2, cn2)
   end.
 
-(* the same loop without the buffer cap (used to state chunking independence) *)
+(* the whole byte stream decoded at once: the reference for chunking independence *)
+Definition whole (stream : bytes) : list value * conn_end :=
+  let '(vs, b, d, s) := drain_all 0 stream in (vs, end_of s b).
+
+(* the same loop without the end-of-read buffer check (kept for the earlier, weaker statement) *)
 Definition feed_nocap (st : bytes * nat * cstatus) (chunk : bytes) : list value * (bytes * nat * cstatus) :=
   match st with
   | (buf, depth, CNeedMore) =>
